@@ -62,6 +62,33 @@ def run(ctx):
         keys = markers.Keys(sess.p)
         regs, _ = c02.build_history(ctx, sess, 100 if quick else 250, 150 if quick else 600, battery=(rd == 0))
         pairs = related_pairs(ctx, sess, regs, 400 if quick else 1500)
+        if rd == 0:
+            # comparisons of two DIFFERENT environment fields are never disjoint, under whatever spelling (a keyword read as another field's
+            # variable would make them so); the witness is written down here, not computed from the diagram
+            spell = dict(markers.OFFICIAL_STRING)
+            for ka, fa in spell.items():
+                a, _ = sess.parse("%s == 'CPython'" % ka)
+                for kb, fb in spell.items():
+                    if fa == fb or a is None:
+                        continue
+                    for tb in ("%s == 'cpython'" % kb, "%s != 'CPython'" % kb):
+                        b, _ = sess.parse(tb)
+                        if b is None:
+                            continue
+                        d = sess.ask(['disjoint', str(a), str(b)])
+                        ctx.oracle_cases += 1
+                        if d[0] == 'ok' and d[1] == 'T':
+                            env = dict(markers.DEFAULT_ENV)
+                            env[fa], env[fb] = 'CPython', 'cpython'
+                            ctx.failure("is_disjoint(%s == 'CPython', %s) is true, yet the two read different environment fields and %s = 'CPython', %s = 'cpython' satisfies both"
+                                        % (ka, tb, fa, fb), {'a': "%s == 'CPython'" % ka, 'b': tb, 'env': env})
+            def parse_eval(text, env):
+                reg, _ = sess.parse(text)
+                if reg is None:
+                    return None
+                g = c02.eval_all(sess, reg, env, [])
+                return g[1] if g[0] == 'ok' else None
+            markers.key_table_battery(ctx, parse_eval)
         cmds, meta = [], []
         for a, b in pairs:
             d1 = sess.ask(['disjoint', str(a), str(b)])
